@@ -43,7 +43,7 @@ PROPS = {
             {"pkg": "interpreter", "name": "VH_C05_Opcode", "thorough_only": True, "thorough": {"params": {"D": 3, "K": 2, "X": 1, "ALIAS": 1, "U": 6, "KM": 1, "OPLO": 126, "OPHI": 165}}},
             {"pkg": "interpreter", "name": "VH_C05_Opcode", "quick": {"params": {"D": 1, "K": 1, "PUSHB": 1, "OPLO": 76, "OPHI": 78, "U": 4}}, "thorough": {"params": {"D": 2, "K": 1, "PUSHB": 1, "OPLO": 76, "OPHI": 78, "U": 4}}},
             {"pkg": "interpreter", "name": "VH_C05_Locktime", "quick": {"params": {"OPLO": 177, "OPHI": 178}}, "thorough": {"params": {"OPLO": 177, "OPHI": 178}}},
-            {"pkg": "interpreter", "name": "VH_C05_Execute", "quick": {"params": {"L": 1}}, "thorough": {"params": {"L": 1, "HEAD": 1, "TAIL": 1}}},
+            {"pkg": "interpreter", "name": "VH_C05_Execute", "quick": {"params": {"L": 1, "LONG": 1}}, "thorough": {"params": {"L": 1, "HEAD": 1, "TAIL": 1, "LONG": 1}}},
             {"pkg": "interpreter", "name": "VH_C05_Control", "quick": {"params": {"D": 1, "K": 1, "C": 2, "U": 4}}, "thorough": {"params": {"D": 2, "K": 1, "C": 3, "U": 4}}},
         ],
         "validate_tests": [{"pkg": "interpreter", "run": "TestVerifRefScripts"}],
@@ -106,7 +106,7 @@ PROPS = {
     },
     "C10": {
         "harnesses": [
-            {"pkg": "bt", "name": "VH_C10_Change", "opts": {"int": True}, "quick": {"params": {"IN": 1, "CSBIG": 0, "BOUNDARY": 1, "DEN": 0}}, "thorough": {"params": {"IN": 2, "CSBIG": 1, "BOUNDARY": 1, "DEN": 1}}},
+            {"pkg": "bt", "name": "VH_C10_Change", "opts": {"int": True}, "quick": {"params": {"IN": 1, "CSBIG": 1, "BOUNDARY": 1, "DEN": 0}}, "thorough": {"params": {"IN": 2, "CSBIG": 1, "BOUNDARY": 1, "DEN": 1}}},
         ],
         "assumptions": [],
     },
@@ -117,6 +117,7 @@ PROPS = {
             {"pkg": "bscript", "name": "VH_C13_HexJSON", "quick": {"params": {"L": 3}}, "thorough": {"params": {"L": 6}}},
             {"pkg": "bscript", "name": "VH_C13_ASM", "quick": {"params": {"E": 2, "PL": 3}}, "thorough": {"params": {"E": 3, "PL": 5}}},
             {"pkg": "interpreter", "name": "VH_C13_ParseUnparse", "quick": {"params": {"L": 2}}, "thorough": {"params": {"L": 3}}},
+            {"pkg": "interpreter", "name": "VH_C13_ParsePush"},
             {"pkg": "interpreter", "name": "VH_C13_ParseReturn", "quick": {"params": {"T": 4}}, "thorough": {"params": {"T": 8}}},
         ],
         "assumptions": [],
@@ -185,6 +186,7 @@ PROPS = {
             {"pkg": "bt", "name": "VH_C01_EncodeDecode", "quick": {"params": {"IO": 2, "S": 1}}, "thorough": {"params": {"IO": 2, "S": 2}}},
             {"pkg": "bt", "name": "VH_C01_Boundary", "quick": {"params": {"BIG": 0}}, "thorough": {"params": {"BIG": 1}}},
             {"pkg": "bt", "name": "VH_C01_CountBoundary"},
+            {"pkg": "bt", "name": "VH_C01_ListCount", "quick": {"params": {"BIG": 1}}, "thorough": {"params": {"BIG": 1}}},
             {"pkg": "bt", "name": "VH_C01_NonMinimal"},
         ],
         "assumptions": [],
